@@ -25,8 +25,8 @@ def configs(tier, seed):
     out = []
     if tier == "quick":
         for args in ([1, 1, 2], [2, 1, 2], [1, 2, 3], [2, 2, 4]):
-            out.append(dict(args=args, S=2, mults=[1, 2], depth=3, thresholds=TH))
-        out.append(dict(args=[2, 2, 2], S=1, mults=[1, 2], depth=4, thresholds=TH))
+            out.append(dict(args=args, S=2, mults=[1, 2], depth=3, thresholds=TH, keep=[0, 1, 2, 3, 5]))
+        out.append(dict(args=[2, 2, 2], S=1, mults=[1, 2], depth=4, thresholds=TH, keep=[0, 1, 2, 5, 6]))
     else:
         for args in ([1, 1, 2], [2, 1, 2], [1, 2, 3], [2, 2, 4], [3, 2, 1], [2, 3, 16], [1, 4, 2],
                      [8, 2, 2]):
